@@ -130,6 +130,11 @@ func genStr(r *core.Run, label string) string {
 	for i := range b {
 		b[i] = byte('a' + r.Intn(26, label))
 	}
+	// the field is delimited by its size prefix, not by its terminator: an interior NUL or a
+	// non-ASCII byte is part of the value
+	if n >= 2 && r.Chance(10, label+"-odd-byte?") {
+		b[r.Intn(n-1, label+"-odd-at")] = []byte{0x00, 0xff, 0x80, '\n'}[r.Intn(4, label+"-odd-byte")]
+	}
 	strLens = append(strLens, n)
 	return string(b)
 }
